@@ -94,6 +94,12 @@ def roots(tier, seed):
                         eqsets = [([[1.0] * n], [1.0])]
                         if n >= 3:
                             eqsets.append(([[1.0] * n, [1.0, -1.0] + [0.0] * (n - 2)], [1.0, 0.5]))
+                        # many equality rows in general position (few free directions): rows from a fixed formula,
+                        # entries multiples of 1/64, right-hand sides chosen so that (0.25, ..., 0.25) is feasible
+                        for m in sorted({n - 1, max(1, n - 2)}):
+                            Ag = [[round(64 * math.sin(1.0 + 2.3 * i + 0.7 * j * (i + 1))) / 64.0 for j in range(n)]
+                                  for i in range(m)]
+                            eqsets.append((Ag, [sum(row) * 0.25 for row in Ag]))
                         for A, b in eqsets:
                             for dist in dd:
                                 for di in range(len(dirs(n))):
@@ -113,6 +119,11 @@ def roots(tier, seed):
                     for x0 in [-50.0, -5.0, -1.0, -0.1, 0.0, 0.1, 1.0, 50.0]:
                         out.append({"fam": "F4", "n": 1, "a": a, "c": c, "box": list(box), "ineq": [list(t) for t in ineq],
                                     "x0": x0})
+    # explicit instances of the families (data kept in mc/c04_explicit.json): instances on which a defect was seen
+    import json
+    import os
+    with open(os.path.join(os.path.dirname(os.path.dirname(os.path.abspath(__file__))), "c04_explicit.json")) as fh:
+        out.extend(json.load(fh))
     return alpha.permute(out, seed)
 
 
@@ -147,6 +158,17 @@ def build(inst):
         kw = dict(fun=lambda x: float(g @ x), x0=x0,
                   constraints=[NonlinearConstraint(lambda x: float(np.sum((x - xc) ** 2)), -INF, r * r)])
         return kw, list(xs), True
+    if fam == "F3x":
+        H = np.array(inst["H"], float)
+        g = np.array(inst["g"], float)
+        A = np.array(inst["Aeq"], float)
+        bb = np.array(inst["beq"], float)
+        m = A.shape[0]
+        K = np.block([[H, A.T], [A, np.zeros((m, m))]])
+        xs = np.linalg.solve(K, np.concatenate([-g, bb]))[:n]
+        kw = dict(fun=lambda x: 0.5 * float(x @ H @ x) + float(g @ x), x0=np.array(inst["x0"], float),
+                  constraints=[LinearConstraint(A, bb, bb)])
+        return kw, [float(v) for v in xs], True
     Qf = hess(n, inst["kappa"], inst["rot"])
     Q = np.array([[float(v) for v in row] for row in Qf])
     c = np.array(inst["c"])
@@ -207,7 +229,7 @@ def run_case(inst):
 def coverage(agg, tier, roots_):
     s = agg.stats
     herr = [f"non-vacuity counter {k} is zero" for k in
-            ("runs_F1", "runs_F2", "runs_F3", "runs_F4", "runs_F5", "solution_on_boundary") if not s.get(k)]
+            ("runs_F1", "runs_F2", "runs_F3", "runs_F3x", "runs_F4", "runs_F5", "solution_on_boundary") if not s.get(k)]
     errs = [e["err"] for e in agg.extra]
     cov = {"evaluations": int(s.get("runs", 0)), "distinct_nontrivial": int(s.get("solution_on_boundary", 0)),
            "rule": RULE, "exhaustive": True, "roots": len(roots_),
